@@ -323,4 +323,11 @@ def proof_stage(rep, prop_modules, extra_targets=()):
         return False, 'theorems with axioms outside the allowed set: ' + ', '.join('%s %s' % (b['theorem'], b['axioms']) for b in bad)
     if not aud:
         return False, 'no theorems found in ' + ' '.join(prop_modules)
+    if rep.tier == 'thorough':
+        # independent re-check of the compiled property modules (and what they import) by leanchecker
+        with Lock('lake'):
+            rc, o = sh(['lake', 'env', 'leanchecker'] + list(prop_modules), cwd=LEAN, timeout=3600)
+        rep.cov['leanchecker'] = 'ok' if rc == 0 else 'FAILED: ' + o[-500:]
+        if rc != 0:
+            return False, 'leanchecker rejects ' + ' '.join(prop_modules) + ':\n' + o[-1500:]
     return True, ''
